@@ -544,13 +544,32 @@ def check_C06(run: Run):
     for gate_, mat_, ops_ in ((_dg6.CNOT(0, 1), Mc, [0, 1]), (_dg6.CZ(1, 0), Mz, [1, 0]), (_MG6(Ug, [0, 1]), Ug, [0, 1])):
         for f_, exp_ in ((2.0, False), (0.5, False), (1e3, False), (3j, False), (1 + 1e-3, False), (-1.0, True), (cmath.exp(0.7j), True), (1 + 1e-12, True)):
             cases.append({"g": W.w_stmt(gate_), "cand": [W.w_stmt(_MG6(f_ * mat_, ops_))], "label": f"matrix times {f_:.4g}", "exp": exp_})
+    # named candidates: after the right one was accepted, the same names on the same qubits with another parameter are wrong
+    from opensquirrel.ir import Float as _F6
+    for th_ in (0.5, -1.3):
+        for q_ in (0, 1):
+            good = [_dg6.H(q_), _dg6.Rz(q_, _F6(th_)), _dg6.H(q_)]
+            cases.append({"g": W.w_stmt(_dg6.Rx(q_, _F6(th_))), "cand": [W.w_stmt(x_) for x_ in good], "label": "exact (named)", "exp": True})
+            for d_ in (1.0, 3e-3, -0.4):
+                bad = [_dg6.H(q_), _dg6.Rz(q_, _F6(th_ + d_)), _dg6.H(q_)]
+                cases.append({"g": W.w_stmt(_dg6.Rx(q_, _F6(th_))), "cand": [W.w_stmt(x_) for x_ in bad], "label": f"named parameter+{d_:g}", "exp": False})
+            cases.append({"g": W.w_stmt(_dg6.Rx(q_, _F6(th_))), "cand": [W.w_stmt(x_) for x_ in good], "label": "exact (named, again)", "exp": True})
+    cases.append({"g": W.w_stmt(_dg6.CR(0, 1, _F6(0.7))), "cand": [W.w_stmt(_dg6.CR(0, 1, _F6(0.7)))], "label": "exact (named)", "exp": True})
+    cases.append({"g": W.w_stmt(_dg6.CR(0, 1, _F6(0.7))), "cand": [W.w_stmt(_dg6.CR(0, 1, _F6(1.7)))], "label": "named parameter+1", "exp": False})
+    cases.append({"g": W.w_stmt(_dg6.CRk(0, 1, 2)), "cand": [W.w_stmt(_dg6.CRk(0, 1, 2))], "label": "exact (named)", "exp": True})
+    cases.append({"g": W.w_stmt(_dg6.CRk(0, 1, 2)), "cand": [W.w_stmt(_dg6.CRk(0, 1, 3))], "label": "named parameter+1", "exp": False})
+    # the same rotation bare and as the target of a control inside one candidate list
+    for gate_, cand_, exp_ in ((_dg6.CNOT(0, 1), [_dg6.X(1), _dg6.CNOT(0, 1), _dg6.X(1)], True), (_dg6.CZ(0, 1), [_dg6.Z(1), _dg6.CZ(0, 1), _dg6.Z(1)], True),
+                               (_dg6.X(1), [_dg6.CNOT(0, 1), _dg6.CNOT(0, 1), _dg6.X(1)], True), (_dg6.CNOT(0, 1), [_dg6.CNOT(0, 1), _dg6.X(1), _dg6.X(1)], True),
+                               (_dg6.CNOT(0, 1), [_dg6.X(1), _dg6.CNOT(0, 1)], False), (_dg6.CNOT(2, 1), [_dg6.CNOT(0, 1), _dg6.CNOT(2, 1), _dg6.CNOT(0, 1)], True)):
+        cases.append({"g": W.w_stmt(gate_), "cand": [W.w_stmt(x_) for x_ in cand_], "label": "repeated rotation", "exp": exp_})
     def cmp_chk(case, r, m):
         if m is None: return None
         if r["err"] != m["err"]:
             return "ambiguous" if case["exp"] is None and case["label"].startswith("angle") else f"check {r['err']} vs model {m['err']}"
         return None
     res = batch_tie(run, "check_gate_replacement", cases, lambda c: O.req_check(c["g"]["g"], [s["g"] for s in c["cand"]]),
-                    lambda c: O.impl_check(c["g"]["g"], [s["g"] for s in c["cand"]]), lambda l: O.parse_ok_err(l), cmp_chk)
+                    lambda c: O.impl_check_stmts(c["g"], c["cand"]), lambda l: O.parse_ok_err(l), cmp_chk)
     for c, r, _ in res:
         run.count({"g": c["g"], "cand": c["cand"]}, tag=c["label"])
         if "harness_error" in r: continue
